@@ -21,10 +21,16 @@ CF(k, b) ==
     [] k = "auth" -> (IF Len(b) >= 2 /\ B(b, 1) = 0 THEN {"con:auth.zero"} ELSE {})
     [] OTHER -> {}
 
+\* the typed ICMPv4 header of a timestamp message has 20 bytes (RFC 792)
+HL(k, b) == IF k = "icmp4" /\ Len(b) >= 2 /\ Icmp4Ts(b, 0) THEN 20 ELSE HdrLen(k, b)
+
+\* ... and Icmpv4Header::from_slice demands that a timestamp message ends with the header (rule on the total slice length):
+\* on longer slices reader and slice decoder are not comparable (C06 compares them "on slices that end with the header")
+TsLong(k, b) == k = "icmp4" /\ Len(b) > 20 /\ Icmp4Ts(b, 0)
 Fix(k) == FixLenOf(k)
 \* full header length once the fixed part is there (content faults make it meaningless)
-FullLen(k, b) == IF Len(b) >= Fix(k) /\ CF(k, b) = {} THEN HdrLen(k, b) ELSE Fix(k)
-SliceOk(k, b) == Len(b) >= Fix(k) /\ CF(k, b) = {} /\ Len(b) >= HdrLen(k, b)
+FullLen(k, b) == IF Len(b) >= Fix(k) /\ CF(k, b) = {} THEN HL(k, b) ELSE Fix(k)
+SliceOk(k, b) == Len(b) >= Fix(k) /\ CF(k, b) = {} /\ Len(b) >= HL(k, b)
 Canon(k, b) == Enc(k, Dec(k, Take(b, HdrLen(k, b))))      \* the value's encoding (reserved bits cleared)
 
 \* IP header + extension headers ("iph", multi-part): verdict and total header length from the reference decoder (struct family)
@@ -39,23 +45,73 @@ IphReadMism(e) == LET r == IphRun(e.bytes) IN
          ELSE (IF x[2] = "ok" THEN (IF r.v = "ok" THEN {"read.success_despite_fault"} ELSE {"read.accepted_what_slice_rejects"}) ELSE {})
          : i \in 1..Len(e.reads)}
 
+\* extension header chains behind a first ip number e.start ("ext6": Ipv6Extensions, "ext4": Ipv4Extensions = optional AH):
+\* verdict, bytes consumed and the ip number behind the chain from the reference decoder (struct family, Decoder!Exts / Auth)
+ExtRun(e) ==
+  LET b == e.bytes  st == e.start IN
+  IF e.type = "ext6" THEN Exts(b, 0, Len(b), st, TRUE, FALSE, <<>>, {}, "struct", {"Slice"})
+  ELSE IF st = IP_AUTH THEN LET r == Auth(b, 0, Len(b), {"Slice"}) IN
+                            IF r[1] = "err" THEN [faults |-> r[2], end |-> 0, ipn |-> st] ELSE [faults |-> {}, end |-> r[2], ipn |-> r[3]]
+  ELSE [faults |-> {}, end |-> 0, ipn |-> st]
+ExtSliceMism(e) == LET r == ExtRun(e) IN
+  IF r.faults = {} THEN (IF e.slice.k # "ok" THEN {"slice.rejected:" \o e.slice.k}
+                         ELSE (IF e.slice.used # r.end THEN {"slice.consumed"} ELSE {})
+                              \cup (IF e.slice.re[Len(e.slice.re)] # r.ipn THEN {"slice.next_header"} ELSE {})
+                              \cup (IF Len(e.slice.re) - 1 # r.end THEN {"slice.value"} ELSE {}))
+  ELSE (IF e.slice.k = "ok" THEN {"slice.accepted"} ELSE {})
+ExtReadMism(e) == LET r == ExtRun(e) IN
+  UNION {LET x == e.reads[i]  okHere == r.faults = {} /\ x[1] >= r.end IN
+         IF okHere THEN (IF x[2] # "ok" THEN {"read.rejected_what_slice_accepts:" \o x[2]}
+                         ELSE (IF x[3] # r.end THEN {"read.consumed"} ELSE {}) \cup (IF x[4] # 1 THEN {"read.value_differs_from_slice"} ELSE {}))
+         ELSE (IF x[2] = "ok" THEN (IF r.faults = {} THEN {"read.success_despite_fault"} ELSE {"read.accepted_what_slice_rejects"}) ELSE {})
+         : i \in 1..Len(e.reads)}
+\* Ipv6Header::skip_* helpers: every header of the general format ((len + 1) * 8 bytes; fragment 8; AH (len + 2) * 4) is stepped over
+S6 == {0, 43, 44, 51, 60, 135, 139, 140}
+SkipOneLen(nh, b, p) == IF nh = 44 THEN 8 ELSE IF nh = 51 THEN (B(b, p + 1) + 2) * 4 ELSE (B(b, p + 1) + 1) * 8
+RECURSIVE SkipAll(_, _, _)
+SkipAll(b, p, nh) ==
+  IF nh \notin S6 THEN <<"ok", nh, p>>
+  ELSE LET a == Len(b) - p IN
+       IF a < 2 THEN <<"err", 2, a, p>>
+       ELSE LET hl == SkipOneLen(nh, b, p) IN IF a < hl THEN <<"err", hl, a, p>> ELSE SkipAll(b, p + hl, B(b, p))
+SkipOne(b, nh) ==
+  IF nh \notin S6 THEN <<"ok", nh, 0>>
+  ELSE IF Len(b) < 2 THEN <<"err", 2, Len(b), 0>>
+  ELSE LET hl == SkipOneLen(nh, b, 0) IN IF Len(b) < hl THEN <<"err", hl, Len(b), 0>> ELSE <<"ok", B(b, 0), hl>>
+SkipCmp(tag, x, got, rd) ==
+  (IF got # (IF x[1] = "ok" THEN <<"ok", x[2], x[3], x[3], 1>> ELSE <<"err", x[2], x[3], x[4], 1>>) THEN {"skip." \o tag \o ".slice"} ELSE {})
+  \cup UNION {LET r == rd[i]  okHere == x[1] = "ok" /\ r[1] >= x[3] IN
+              IF okHere THEN (IF r # <<r[1], "ok", x[2], x[3]>> THEN {"skip." \o tag \o ".read.differs_from_slice"} ELSE {})
+              ELSE (IF r[2] = "ok" THEN {"skip." \o tag \o ".read.success_despite_fault"} ELSE {})
+              : i \in 1..Len(rd)}
+SkipMism(e) ==
+  IF e.skips.has # 1 THEN {} ELSE
+  (IF (e.skips.skippable = 1) # (e.start \in S6) THEN {"skip.is_skippable"} ELSE {})
+  \cup SkipCmp("all", SkipAll(e.bytes, 0, e.start), e.skips.all, e.skips.all_r)
+  \cup SkipCmp("one", SkipOne(e.bytes, e.start), e.skips.one, e.skips.one_r)
+
 SliceMism(e) ==
   LET k == e.type  b == e.bytes IN
   IF k = "iph" THEN IphSliceMism(e) ELSE
+  IF k \in {"ext4", "ext6"} THEN ExtSliceMism(e) ELSE
+  IF TsLong(k, b) THEN {} ELSE
   IF SliceOk(k, b)
   THEN (IF e.slice.k # "ok" THEN {"slice.rejected:" \o e.slice.k}
-        ELSE (IF e.slice.used # HdrLen(k, b) THEN {"slice.consumed"} ELSE {}) \* (typed ICMP values normalise unused header bytes: their field fidelity belongs to Ctl.tla / C17)
+        ELSE (IF e.slice.used # HL(k, b) THEN {"slice.consumed"} ELSE {}) \* (typed ICMP values normalise unused header bytes: their field fidelity belongs to Ctl.tla / C17)
              \cup (IF k \notin {"icmp4", "icmp6"} /\ e.slice.re # Canon(k, b) THEN {"slice.value"} ELSE {}))
   ELSE (IF e.slice.k = "ok" THEN {"slice.accepted"} ELSE IF e.slice.k \notin (CF(k, b) \cup {"len"}) THEN {"slice.reason:" \o e.slice.k} ELSE {})
 
 ReadMism(e) ==
   LET k == e.type  b == e.bytes IN
   IF k = "iph" THEN IphReadMism(e) ELSE
+  IF k \in {"ext4", "ext6"} THEN ExtReadMism(e) ELSE
+  IF TsLong(k, b) THEN UNION {LET r == e.reads[i] IN IF r[1] >= 20 THEN (IF r[2] # "ok" \/ r[3] # 20 THEN {"read.timestamp"} ELSE {})
+                                                     ELSE (IF r[2] = "ok" THEN {"read.success_despite_fault"} ELSE {}) : i \in 1..Len(e.reads)} ELSE
   UNION {LET r == e.reads[i]  n == r[1]  kind == r[2]
-             okHere == SliceOk(k, b) /\ n >= HdrLen(k, b) IN
+             okHere == SliceOk(k, b) /\ n >= HL(k, b) IN
          IF okHere
          THEN (IF kind # "ok" THEN {"read.rejected_what_slice_accepts:" \o kind}
-               ELSE (IF r[3] # HdrLen(k, b) THEN {"read.consumed"} ELSE {}) \cup (IF r[4] # 1 THEN {"read.value_differs_from_slice"} ELSE {}))
+               ELSE (IF r[3] # HL(k, b) THEN {"read.consumed"} ELSE {}) \cup (IF r[4] # 1 THEN {"read.value_differs_from_slice"} ELSE {}))
          ELSE (IF kind = "ok" THEN (IF SliceOk(k, b) THEN {"read.success_despite_fault"} ELSE {"read.accepted_what_slice_rejects"})
                \* the same reason as the slice decoder (content rule visible in the bytes delivered) or the I/O error itself
                ELSE IF kind \notin (CF(k, Take(b, n)) \cup (IF n < FullLen(k, b) \/ Len(b) < FullLen(k, b) THEN {"io"} ELSE {}))
@@ -64,7 +120,7 @@ ReadMism(e) ==
 
 WriteMism(e) ==
   IF e.slice.k # "ok" THEN {} ELSE
-  LET T == Len(e.slice.re) IN
+  LET T == IF e.type \in {"ext4", "ext6"} THEN Len(e.slice.re) - 1 ELSE Len(e.slice.re) IN
   UNION {LET w == e.writes[i]  cap == w[1] IN
          (IF (w[2] = 1) # (cap >= T) THEN {IF w[2] = 1 THEN "write.success_despite_fault" ELSE "write.failed_without_fault"} ELSE {})
          \cup (IF w[3] > cap \/ w[3] > T \/ (w[2] = 1 /\ w[3] # T) THEN {"write.byte_count"} ELSE {})
@@ -86,7 +142,7 @@ VARIABLES l, bad
 TraceInit == l = 1 /\ bad = {}
 TraceNext == /\ l <= Len(Rec)
              /\ LET e == Rec[l]
-                    ms == IF e.ev = "io" THEN SliceMism(e) \cup ReadMism(e) \cup WriteMism(e) ELSE {"panic:" \o e.type}
+                    ms == IF e.ev = "io" THEN SliceMism(e) \cup ReadMism(e) \cup WriteMism(e) \cup SkipMism(e) ELSE {"panic:" \o e.type}
                 IN bad' = bad \cup {<<e.id, t>> : t \in ms}
              /\ l' = l + 1
 TraceSpec == TraceInit /\ [][TraceNext]_<<l, bad>>
